@@ -29,7 +29,9 @@ Readable(f) ==
   /\ f.r = 2 => HasWords(f.tmpl)
 Defaults == [ns : {"N", "S"}, ew : {"E", "W"}]
 Sources == {"config", "keyword", "masterconfig", "unset"}      \* unset: library defaults (N, W)
-EffDefault(d, src) == IF src = "unset" THEN [ns |-> "N", ew |-> "W"] ELSE d
+\* each axis has its own source (e.g. N/S from the config text, E/W from a parse keyword)
+SrcPairs == [ns : Sources, ew : Sources]
+EffDefault(d, src) == [ns |-> IF src.ns = "unset" THEN "N" ELSE d.ns, ew |-> IF src.ew = "unset" THEN "W" ELSE d.ew]
 
 Meaning(f, d) ==
   [t |-> f.t, r |-> f.r,
@@ -39,7 +41,7 @@ Missing(f) == f.ns = "-" \/ f.ew = "-"
 
 VARIABLES forms, dflt, src, ocr, phase
 vars == <<forms, dflt, src, ocr, phase>>
-Init == forms = <<>> /\ dflt \in Defaults /\ src \in Sources /\ ocr \in BOOLEAN /\ phase = "choose"
+Init == forms = <<>> /\ dflt \in Defaults /\ src \in SrcPairs /\ ocr \in BOOLEAN /\ phase = "choose"
 Choose == /\ phase = "choose"
           /\ \E n \in 1..MaxTR : \E fs \in [1..n -> Forms] :
                /\ \A i \in 1..n : Readable(fs[i])
